@@ -38,6 +38,20 @@ Theorem C33_obj_flush_once_except_known : forall hooks fuel o s s' k,
 Proof. exact obj_flush_once. Qed.
 Print Assumptions C33_obj_flush_once_except_known.
 
+(* obj.flush() as repaired by proposed_fixes/C33-obj-flush-principal-before-hooks.diff (Entity.flush passes call_before_hooks=True;
+   _save_principal_objects_ calls the before hook of every still-unsaved principal right before saving it): UNCONDITIONAL --
+   for all hooks, every chain of principals (a cyclic chain is an error in model and code), every session state.
+   (The check compares the real Entity.flush with obj_flush_h instead of obj_flush as soon as /repo contains the repair.) *)
+Theorem C33_obj_flush_once_repaired : forall hooks fuel o s s',
+  R s -> obj_flush_h hooks fuel o s = Some s' -> R s'.
+Proof. exact obj_flush_h_once. Qed.
+Print Assumptions C33_obj_flush_once_repaired.
+
+Example C33_repaired_nonvacuous :
+  result_log (match obj_flush_h no_hooks 10 1 st_principal with Some s => Ok s | None => ErrFuel end)
+  = [EB KIns 1; EB KIns 0; ES KIns 0; ES KIns 1; EA KIns 0; EA KIns 1].
+Proof. vm_compute. reflexivity. Qed.
+
 Example C33_nonvacuous : R st_principal /\
   result_log (flush no_hooks 50 10 st_principal) = [EB KIns 0; EB KIns 1; ES KIns 0; ES KIns 1; EA KIns 0; EA KIns 1].
 Proof. split; [exact st_principal_R | vm_compute; reflexivity]. Qed.
